@@ -68,7 +68,7 @@ def execute(case):
     shared = None
     seen = {}           # (seed, T) -> list of (how, digest, position)
     viol = []
-    stats = {"fresh": 0, "reused": 0, "noise": 0, "interleave": 0, "records": 0}
+    stats = {"fresh": 0, "reused": 0, "noise": 0, "interleave": 0, "bystander": 0, "records": 0}
 
     def get_shared():
         nonlocal shared
@@ -88,6 +88,16 @@ def execute(case):
                 ciw.seed(op[1])
                 b = B.build(spec)
                 d = _run(_sim(b, spec), op[2])
+                seen.setdefault((op[1], op[2]), []).append(("fresh", d, pos))
+            elif kind == "bystander":
+                # build and construct, then construct (never run) an unrelated default-routed simulation, then run: no shared state
+                ciw.seed(op[1])
+                b = B.build(spec)
+                Q = _sim(b, spec)
+                nb = ciw.create_network(arrival_distributions=[ciw.dists.Deterministic(1.0)], service_distributions=[ciw.dists.Deterministic(1.0)],
+                                        number_of_servers=[1])
+                ciw.Simulation(nb)
+                d = _run(Q, op[2])
                 seen.setdefault((op[1], op[2]), []).append(("fresh", d, pos))
             elif kind == "reused":
                 sh = get_shared()
@@ -161,6 +171,10 @@ def make_machine(body):
         @rule(seed=st.sampled_from(SEEDS), T=st.sampled_from(HORIZONS))
         def run_reused(self, seed, T):
             self.case["ops"].append(["reused", seed, T])
+
+        @rule(seed=st.sampled_from(SEEDS), T=st.sampled_from(HORIZONS))
+        def run_with_bystander(self, seed, T):
+            self.case["ops"].append(["bystander", seed, T])
 
         @rule(seed=st.integers(0, 50))
         def run_noise(self, seed):
